@@ -224,3 +224,52 @@ def released_on_all_normal_paths(fi, resource, ctxvars, cg=None, acq_loop_iter=N
     ok = not g.path_exists(g.entry, g.exit, avoid=rel, labels=("n", "t", "f"))
     path = None if ok else g.witness_path(g.entry, g.exit, avoid=rel, labels=("n", "t", "f"))
     return ok, path, len(rel)
+
+
+def journal_findings(repo, fi, cg, ctxvars):
+    """Journaled rollback (`for x in reversed(J): release(x)`): every `J.append(...)` must come after the acquire it records,
+    otherwise a failing acquire is rolled back although it never completed (over-release).
+    -> [(journal name, resource, append site text, ok, detail)]"""
+    out = []
+    fn = fi.node
+    journals = {}
+    for n in ast.walk(fn):
+        if isinstance(n, ast.For):
+            it = n.iter
+            if isinstance(it, ast.Call) and isinstance(it.func, ast.Name) and it.func.id in ("reversed", "list", "tuple") and it.args:
+                it = it.args[0]
+            if isinstance(it, ast.Name):
+                rels = [(r, d) for st in n.body for r, k, d in classify_stmt(st, ctxvars) if k == "rel"]
+                if rels:
+                    journals[it.id] = rels[0][0]
+    if not journals:
+        return out
+    # appends may sit in the function itself or in a function nested in it (wrapper handed to a traversal)
+    holders = [fi] + [f2 for f2 in repo.functions.values() if f2.parent is not None and f2.parent.qual == fi.qual]
+    for h in holders:
+        g = CFG(h.node, cg.stmt_may_raise(h))
+        cls = {}
+        for n in g.nodes:
+            pr = node_probe(n) if n.stmt is not None else None
+            cls[n.id] = classify_stmt(pr, ctxvars) if pr is not None else []
+        for n in g.nodes:
+            if n.kind != "stmt" or n.stmt is None:
+                continue
+            for c in ast.walk(n.stmt) if not isinstance(n.stmt, (ast.FunctionDef, ast.ClassDef)) else []:
+                if isinstance(c, ast.Call) and isinstance(c.func, ast.Attribute) and c.func.attr == "append" and isinstance(c.func.value, ast.Name) \
+                        and c.func.value.id in journals:
+                    res = journals[c.func.value.id]
+                    acq = [m for m in g.nodes if any(r == res and k == "acq" for r, k, _ in cls[m.id])]
+                    loop = _loop_iter_of(n.stmt)
+                    start = next((m for m in g.nodes if m.kind == "for" and m.stmt is loop), g.entry) if loop is not None else g.entry
+                    # leave the loop head by its body edge only
+                    ok = bool(acq) and not g.path_exists(start, n, avoid=acq, labels=("n", "t") if start is not g.entry else ("n", "t", "f"))
+                    # and the acquire's own failure must not reach the append
+                    for a in acq:
+                        es = [x for x, l in a.succ if l == "e"]
+                        if es and n.id in ({x.id for x in es} | g.reach(es, avoid=[])) and not g.path_exists(a, n, labels=("n", "t", "f")):
+                            pass
+                    out.append((c.func.value.id, res, norm(n.stmt)[:70], ok,
+                                "" if ok else f"`{norm(n.stmt)[:60]}` in {h.qual} can run before the acquire it records has completed: "
+                                              f"the rollback then releases {res} once more than was acquired"))
+    return out
